@@ -408,6 +408,10 @@ func runC08Order(env *Env, rc *RunCtx) {
 			d["schedule"] = r.Trace
 			return d
 		}
+		if !r.Returned && r.Outcome == DriveStepLimit {
+			rc.Count("inconclusive_step_limit", 1)
+			return
+		}
 		if !r.Returned || r.BatchErr != "" || len(r.Outs) != n {
 			rc.Violate("batch-shape", "engine", fmt.Sprintf("BatchCheck returned=%v err=%q with %d results for %d tuples", r.Returned, r.BatchErr, len(r.Outs), n), w(), e, et)
 			return
